@@ -1,12 +1,16 @@
 package checks
 
 import (
+	"encoding/json"
 	"fmt"
 	"regexp"
 	"strings"
+	"sync"
 
+	"verif/internal/ev"
 	"verif/internal/explore"
 	"verif/internal/imp"
+	"verif/internal/statespace"
 )
 
 // Shared scenario machinery for the import-table properties (C03 C04 C05 C06 C19).
@@ -74,6 +78,10 @@ type family struct {
 	wrappers []int // wrappers to choose from (first = default)
 	anon     bool  // whether paths may be made anonymous
 	preamble []string
+	// preambleOpts: alternative cgo preamble lists to choose from (first = default)
+	preambleOpts [][]string
+	// bigHints: a table of (mostly unused) paths that may be given to ImportNames in one call
+	bigHints []string
 }
 
 func (fam *family) hintOpts(p string) []hintOpt {
@@ -170,8 +178,15 @@ func (fam *family) scenario(c *explore.Ctx) *imp.World {
 	if prefix != "" && !hintsLast {
 		w.Prefix(prefix)
 	}
-	for _, p := range fam.preamble {
+	pre := fam.preamble
+	if len(fam.preambleOpts) > 0 {
+		pre = fam.preambleOpts[c.Choose(len(fam.preambleOpts))]
+	}
+	for _, p := range pre {
 		w.CgoPreamble(p)
+	}
+	if len(fam.bigHints) > 0 && c.Bool() {
+		w.Names(fam.bigHints...)
 	}
 	for _, p := range seq {
 		wi := fam.wrappers[0]
@@ -251,4 +266,144 @@ func tailLines(s string, n int) string {
 		ls = ls[:n]
 	}
 	return "\n" + strings.Join(ls, "\n")
+}
+
+// ---- raw-operation BFS shared by the import-table checks
+
+type rawOp struct {
+	name string
+	do   func(w *imp.World)
+}
+
+type rawSystem struct {
+	ctor, local string
+	ops         []rawOp
+	tn          func(string) string
+}
+
+// newRawSystem builds the operation alphabet: for every path ImportName (when a true name is
+// known), ImportAlias for every alias of the pool, Anon (if anon), one reference per wrapper;
+// plus PackagePrefix and any extra operations.
+func newRawSystem(ctor, local string, paths []string, names map[string]string, aliases []string, wrappers []int, anon bool, prefix string, extra ...rawOp) *rawSystem {
+	sys := &rawSystem{ctor: ctor, local: local, tn: imp.DefaultTrueName(names)}
+	for _, p := range paths {
+		p := p
+		if _, ok := names[p]; ok {
+			sys.ops = append(sys.ops, rawOp{"ImportName(" + p + ")", func(w *imp.World) { w.Name(p) }})
+		}
+		for _, a := range aliases {
+			a := a
+			sys.ops = append(sys.ops, rawOp{"ImportAlias(" + p + "," + a + ")", func(w *imp.World) { w.Alias(p, a) }})
+		}
+		if anon {
+			sys.ops = append(sys.ops, rawOp{"Anon(" + p + ")", func(w *imp.World) { w.AnonImport(p) }})
+		}
+		for _, wi := range wrappers {
+			wi := wi
+			sys.ops = append(sys.ops, rawOp{"Ref(" + p + "," + imp.Wrappers[wi].Name + ")", func(w *imp.World) { w.Ref(p, wi) }})
+		}
+	}
+	if prefix != "" {
+		sys.ops = append(sys.ops, rawOp{"PackagePrefix=" + prefix, func(w *imp.World) { w.Prefix(prefix) }})
+	}
+	sys.ops = append(sys.ops, extra...)
+	return sys
+}
+
+func (sys *rawSystem) build(hist []int) *imp.World {
+	w := imp.New(sys.ctor, sys.local, sys.tn)
+	for _, i := range hist {
+		sys.ops[i].do(w)
+	}
+	return w
+}
+
+// impCheck is the common shape of an import-table check: a raw-operation BFS plus canonical
+// scenarios of path families, judged by the property's oracle.
+type impCheck struct {
+	id         string
+	judge      func(a *imp.Analysis, w *imp.World) []string
+	sys        *rawSystem
+	fams       []*family
+	bfsDepth   [2]int // quick, thorough
+	dev        [2]int
+	nontrivial func(a *imp.Analysis, w *imp.World) bool
+}
+
+func (ic *impCheck) judgeWorld(w *imp.World) (*imp.Analysis, []string) {
+	a, msg := renderAnalyze(w)
+	if a == nil {
+		return nil, []string{msg}
+	}
+	return a, ic.judge(a, w)
+}
+
+func (ic *impCheck) run(r *ev.Recorder) {
+	ti := 0
+	if r.Tier == ev.Thorough {
+		ti = 1
+		r.SetDeadline(45 * 60 * 1e9)
+	} else {
+		r.SetDeadline(6 * 60 * 1e9)
+	}
+	lid := strings.ToLower(ic.id)
+	var mu sync.Mutex
+	one := func(w *imp.World, c impCase, sig string, wantSample bool) {
+		r.Eval(1)
+		a, probs := ic.judgeWorld(w)
+		if a != nil && ic.nontrivial(a, w) {
+			r.Distinct(a.Src)
+			if wantSample && r.WantSample() {
+				mu.Lock()
+				r.Sample(map[string]any{"operations": w.Log, "output": a.Src})
+				mu.Unlock()
+			}
+		}
+		if len(probs) > 0 {
+			c.Ops = w.Log
+			r.Violate(ev.Violation{Signature: lid + ":" + sig + ":" + problemKind(probs[0]), What: fmt.Sprintf("%v: %s", w.Log, probs[0]),
+				Case: ev.JSON(c), Detail: strings.Join(probs, "\n")})
+		}
+	}
+	if ic.sys != nil {
+		res := statespace.Search(statespace.System{
+			NumOps: len(ic.sys.ops), MaxDepth: ic.bfsDepth[ti], Stop: r.Expired,
+			Step: func(hist []int) (string, bool) {
+				w := ic.sys.build(hist)
+				return imp.Key(w.F), true
+			},
+			Invariant: func(hist []int) {
+				one(ic.sys.build(hist), impCase{BFS: hist}, "bfs", len(hist) == ic.bfsDepth[ti])
+			},
+		})
+		r.Note("states", res.States)
+		r.Note("transitions", res.Transitions)
+		r.Note("traces_validated_against_impl", res.Transitions)
+		r.Note("bfs_depth_completed", res.Depth)
+		r.Note("bfs_states_per_depth", res.PerDepth)
+		r.Note("bfs_operations", len(ic.sys.ops))
+		if !res.Complete {
+			r.NotExhaustive("BFS stopped before its depth bound")
+		}
+	}
+	perFam := map[string]any{}
+	for _, fam := range ic.fams {
+		fam := fam
+		st := explore.Explore(explore.Options{MaxDev: ic.dev[ti], Stop: r.Expired}, func(c *explore.Ctx) {
+			w := fam.scenario(c)
+			one(w, impCase{Family: fam.name, Vector: c.Vector()}, fam.name, c.Devs == 2)
+		})
+		perFam[fam.name] = map[string]any{"executions": st.Executions, "per_deviation_level": st.PerLevel, "complete": st.Complete}
+		if !st.Complete {
+			r.NotExhaustive("family " + fam.name + " stopped at the deadline")
+		}
+	}
+	r.Note("families", perFam)
+}
+
+func (ic *impCheck) replay(raw json.RawMessage) (bool, string) {
+	return replayImp(ic.fams, ic.sys, func(w *imp.World) []string {
+		_, probs := ic.judgeWorld(w)
+		return probs
+	}, raw)
 }
